@@ -550,9 +550,13 @@ class Normalizer:
     def block(self, stmts, env: dict, depth: int, elif_pos=False):
         out = []
         acc = {}                                   # accumulators: name -> ('int' | 'list')
+        saved = (getattr(self, "_cur_out", None), getattr(self, "_acc_init", None))
+        self._acc_init = {}
         for st in stmts:
+            self._cur_out = out
             for new in self.statement(st, env, depth, acc):
                 out.append(new)
+        self._cur_out, self._acc_init = saved
         return self.flatten(out, elif_pos)
 
     def flatten(self, stmts, elif_pos=False):
@@ -668,8 +672,13 @@ class Normalizer:
             st.iter = self.expr(st.iter, env, depth)
             comp = self.accumulate(st, acc)
             if comp is not None:
-                self.kill(env, comp)
-                return [comp]
+                nm = comp.targets[0].id
+                init = self._acc_init.pop(nm, None)
+                if init is not None and init in self._cur_out:
+                    self._cur_out.remove(init)                      # `n = 0` / `xs = []` is dead now
+                    self.store_count[nm] = max(1, self.store_count.get(nm, 0) - 2)
+                    self.mutated.discard(nm)
+                return self.statement(comp, env, depth, acc)
             try:
                 unrolled = self.unroll(st)
             except _No:
@@ -745,17 +754,26 @@ class Normalizer:
         # statement-level inlining (a)
         spliced = self.inline_statement(st, env, depth)
         if spliced is not None:
-            acc.clear()
-            return spliced
+            if (len(spliced) == 1 and isinstance(spliced[0], ast.Assign) and isinstance(st, ast.Assign)
+                    and isinstance(st.targets[0], ast.Name) and len(spliced[0].targets) == 1
+                    and isinstance(spliced[0].targets[0], ast.Name) and spliced[0].targets[0].id == st.targets[0].id):
+                st = spliced[0]
+                self.store_count[st.targets[0].id] = max(1, self.store_count.get(st.targets[0].id, 1) - 1)
+            else:
+                acc.clear()
+                return spliced
         # accumulators (f)
         if isinstance(st, ast.Assign) and len(st.targets) == 1 and isinstance(st.targets[0], ast.Name):
             nm, v = st.targets[0].id, st.value
             if isinstance(v, ast.Constant) and v.value == 0 and type(v.value) is int:
                 acc[nm] = "int"
+                self._acc_init[nm] = st
             elif isinstance(v, ast.List) and not v.elts:
                 acc[nm] = "list"
+                self._acc_init[nm] = st
             else:
                 acc.pop(nm, None)
+                self._acc_init.pop(nm, None)
         else:
             for n in ast.walk(st):
                 if isinstance(n, ast.Name) and n.id in acc:
@@ -1195,7 +1213,7 @@ class Normalizer:
         body = self._prepare(body, mod, hcls, h_stores | params)
         # free names of the helper must mean the same thing at the call site
         free = {n.id for s in body for n in ast.walk(s) if isinstance(n, ast.Name) and isinstance(n.ctx, ast.Load)} - params - h_stores
-        caller_bound = self.fn_params | set(self.store_count)
+        caller_bound = self.fn_params | (set(self.store_count) - getattr(self, "_kept_comp", set()))
         if free & caller_bound:
             raise _No("free name of the helper is shadowed at the call site")
         if mod is not self.mod:
@@ -1204,7 +1222,17 @@ class Normalizer:
                 if nm in mod.funcs or nm in mod.classes or nm in mod.consts:
                     if not (nm in self.mod.imports and self.mod.imports[nm] == (mod.rel, nm)):
                         raise _No("helper of another module uses names of that module")
-        ren = {nm: tag + nm for nm in h_stores - params}
+        comp_vars = {n for c in ast.walk(fn) if isinstance(c, ast.comprehension) for n in stores_of(c.target)}
+        comp_targets = {id(m) for c in ast.walk(fn) if isinstance(c, ast.comprehension) for m in ast.walk(c.target)}
+        plain_stores = {m.id for m in ast.walk(fn) if isinstance(m, ast.Name) and isinstance(m.ctx, (ast.Store, ast.Del))
+                        and id(m) not in comp_targets} | (h_stores - comp_vars)
+        arg_reads = {m.id for v in bound.values() for m in ast.walk(v) if isinstance(m, ast.Name)}
+        keep = {n for n in comp_vars - plain_stores if n not in arg_reads and n not in caller_bound}
+        for nm in keep:
+            if nm not in self.store_count:
+                self.store_count[nm] = 2             # a comprehension variable is never an alias
+                self._kept_comp = getattr(self, "_kept_comp", set()) | {nm}
+        ren = {nm: tag + nm for nm in h_stores - params - keep}
         prelude, direct = [], {}
         uses = {}
         for s in body:
@@ -1284,6 +1312,10 @@ class Normalizer:
         except _No:
             return None
         out = self.flatten(pre + body)
+        loaded = {m.id for s in out for m in ast.walk(s) if isinstance(m, ast.Name) and isinstance(m.ctx, ast.Load)}
+        out = [s for s in out if not (isinstance(s, ast.Assign) and len(s.targets) == 1 and isinstance(s.targets[0], ast.Name)
+                                      and s.targets[0].id.startswith("_h") and s.targets[0].id not in loaded
+                                      and self.pure(s.value))]           # temporaries of the inlining that were substituted
         for s in out:
             ast.fix_missing_locations(s)
             self.kill(env, s)
